@@ -117,6 +117,7 @@ pub fn check() -> i32 {
                 tags: vec!["process-aborted".into()],
                 replay: json!({"check": "c11", "backend": b, "part": part, "tier": tier}),
             }),
+            Child::Machinery(m) => rep.machinery_errors.push(m),
             Child::TimedOut => rep.violation(Violation {
                 what: format!("[{b}/{part}] did not finish within {timeout:?}"),
                 tags: vec!["hang".into()],
@@ -179,6 +180,10 @@ pub fn replay(r: &Value) -> i32 {
         Child::TimedOut => {
             println!("replay: timed out");
             1
+        }
+        Child::Machinery(m) => {
+            eprintln!("{m}");
+            2
         }
     }
 }
